@@ -199,3 +199,93 @@ func VerifC02_Overflow() {
 	vAssert(Overflow(nil) == 0, "C02: Overflow(nil) is 0")
 	vReach("c02.overflow")
 }
+
+// ---- large frames --------------------------------------------------------------
+// Twrite with thousands of data bytes against msize values around powers of two
+// and block multiples (content a concrete pattern, first/last byte and all
+// integer fields symbolic); other kinds with a long string against the same
+// msize values.
+var vC02BigMsizes = []int{255, 256, 257, 1023, 1024, 1025, 4095, 4096, 4097, 4118, 4119, 4120, 4121, 8191, 8192, 8193, 8215, 8216, 12311, 16384, 65535, 65536, 65537, 1 << 17}
+
+func vC02TwriteBig(msizes []int) {
+	msize := msizes[ndChoice("msize", len(msizes))]
+	fit := msize - 23
+	n := fit + []int{-1, 0, 1, 2, 4096, 70000}[ndChoice("extra", 6)]
+	tag := Tag(ndU16("tag"))
+	data := vBigBytes("data", n)
+	orig := append([]byte(nil), data...)
+	msg := MessageTwrite{Fid: Fid(ndU32("fid")), Offset: ndU64("offset"), Data: data}
+	conn := &vCaptureConn{}
+	ch := newChannel(conn, codec9p{}, msize)
+	err := ch.WriteFcall(vBG, &Fcall{Type: Twrite, Tag: tag, Message: msg})
+	vAssert(err == nil, "C02: Twrite with msize >= 24 is always sent (possibly shortened)")
+	vAssertEqBytes(data, orig, "C02: caller's buffer is never modified")
+	out := conn.out
+	vAssert(len(out) >= 23 && int(vLE32(out)) == len(out), "C02: length prefix equals total length")
+	vAssert(len(out) <= msize, "C02: frame within msize")
+	if 23+n <= msize {
+		vAssertEqBytes(out, vFrame(refEncode(Twrite, tag, msg)), "C02: fitting Twrite unmodified")
+	} else {
+		vAssert(len(out) == msize, "C02: shortened Twrite frame is exactly msize")
+		short := MessageTwrite{Fid: msg.Fid, Offset: msg.Offset, Data: orig[:fit]}
+		vAssertEqBytes(out, vFrame(refEncode(Twrite, tag, short)), "C02: shortened Twrite carries a prefix of the data")
+	}
+	vReach("c02.twrite.big")
+}
+
+func vC02DefaultBig(msizes []int) {
+	msize := msizes[ndChoice("msize", len(msizes))]
+	tag := Tag(ndU16("tag"))
+	var kind FcallType
+	var msg Message
+	// frame size = fixed part + string/data length; choose the length so that the
+	// frame is msize-1, msize or msize+1
+	d := []int{-1, 0, 1}[ndChoice("d", 3)]
+	switch ndChoice("kind", 3) {
+	case 0: // Rerror: 4+1+2+2+len
+		n := msize + d - 9
+		if n < 0 {
+			return
+		}
+		if n > 65535 {
+			n = 65535
+		}
+		kind, msg = Rerror, MessageRerror{Ename: string(vBigBytes("ename", n))}
+	case 1: // Rread: 4+1+2+4+len
+		n := msize + d - 11
+		if n < 0 {
+			return
+		}
+		kind, msg = Rread, MessageRread{Data: vBigBytes("data", n)}
+	case 2: // Tcreate: 4+1+2+4+2+len+4+1
+		n := msize + d - 18
+		if n < 0 {
+			return
+		}
+		if n > 65535 {
+			n = 65535
+		}
+		kind, msg = Tcreate, MessageTcreate{Fid: Fid(ndU32("fid")), Name: string(vBigBytes("name", n)), Perm: ndU32("perm"), Mode: Flag(ndU8("mode"))}
+	}
+	conn := &vCaptureConn{}
+	ch := newChannel(conn, codec9p{}, msize)
+	want := refEncode(kind, tag, msg)
+	err := ch.WriteFcall(vBG, &Fcall{Type: kind, Tag: tag, Message: msg})
+	if 4+len(want) <= msize {
+		vAssert(err == nil, "C02: a message that fits is sent")
+		vAssertEqBytes(conn.out, vFrame(want), "C02: exactly one unmodified frame")
+	} else {
+		vAssert(err != nil, "C02: too long => error")
+		vAssert(Overflow(err) == 4+len(want)-msize, "C02: error reports the excess")
+		vAssert(len(conn.out) == 0, "C02: too long => nothing emitted")
+	}
+	vReach("c02.default.big")
+}
+
+func VerifC02_BigQuick() {
+	if ndChoice("which", 2) == 0 {
+		vC02TwriteBig(vC02BigMsizes)
+	} else {
+		vC02DefaultBig(vC02BigMsizes)
+	}
+}
